@@ -36,6 +36,9 @@ func acquireDecoder() *Decoder {
 		dec.useSkipProba = false
 		dec.skipP = 0
 		dec.filterType = 0
+		// intraL is read by the first parseIntraModeRow before any initScanline;
+		// a previous decode that failed mid-row leaves stale left modes behind.
+		dec.intraL = [4]uint8{}
 		dec.AlphaData = nil
 		return dec
 	}
